@@ -16,6 +16,10 @@ Translated (anything outside the grammar raises TranslateError):
         idcs = np.searchsorted(cvec, xi) - 1 ; idcs[idcs < 0] = 0 ; idcs[idcs > cvec.size - 2] = cvec.size - 2
         norm_distances.append((xi - cvec[idcs]) / (cvec[idcs + 1] - cvec[idcs]))
   * _NearestInterpolator._evaluate:  idx_res.append(np.where(yi < .5, i, i + 1))
+  * the factories: which evaluator class nearest_/linear_/per_axis_interpolator instantiate, the
+    all(s == 'nearest' ...) dispatch of per_axis_interp, interp=['linear'] * d of _LinearInterpolator
+  * _Interpolator.__call__: the ordered `out` checks (not an array -> TypeError, wrong shape /
+    dtype -> ValueError)
 """
 import ast
 import os
@@ -311,6 +315,104 @@ def nearest_pick(fn):
             % (p.cmp(w.args[0]), p.iexpr(w.args[1]), p.iexpr(w.args[2])))
 
 
+def inner_func(top, name):
+    """The single nested function of a factory (nearest_interp / linear_interp / per_axis_interp)."""
+    if name not in top:
+        fail(None, 'function %s not found' % name)
+    inner = [n for n in top[name].body if isinstance(n, ast.FunctionDef)]
+    if len(inner) != 1:
+        fail(top[name], 'expected one nested function')
+    return inner[0]
+
+
+def ctor_call(node, allowed):
+    """`interpolator = <Class>(coord_vecs, f, [interp=interp,] input_type=x_type)` -> class name"""
+    if not (isinstance(node, ast.Assign) and txt(node.targets[0]) == 'interpolator' and isinstance(node.value, ast.Call)
+            and isinstance(node.value.func, ast.Name) and node.value.func.id in allowed):
+        fail(node, 'expected interpolator = <one of %s>(...)' % (allowed,))
+    call = node.value
+    if [txt(a) for a in call.args] != ['coord_vecs', 'f']:
+        fail(node, 'unexpected positional arguments')
+    kws = sorted((k.arg, txt(k.value)) for k in call.keywords)
+    want = [('input_type', 'x_type')] + ([('interp', 'interp')] if call.func.id == '_PerAxisInterpolator' else [])
+    if kws != sorted(want):
+        fail(node, 'unexpected keyword arguments')
+    return call.func.id
+
+
+def factories(top):
+    """Which evaluator class each public factory instantiates (and under which condition)."""
+    cls = ('_NearestInterpolator', '_LinearInterpolator', '_PerAxisInterpolator')
+    out = {}
+    for fac in ('nearest_interpolator', 'linear_interpolator'):
+        fn = inner_func(top, fac)
+        body = [s for s in fn.body if not (isinstance(s, ast.Expr) and isinstance(s.value, ast.Constant))]
+        if len(body) < 2 or txt(body[0]) != 'x,x_type,x_is_scalar=_check_interp_inputx,f':
+            fail(fn, 'unexpected start of %s' % fac)
+        out[fac] = ctor_call(body[1], cls)
+    fn = inner_func(top, 'per_axis_interpolator')
+    body = [s for s in fn.body if not (isinstance(s, ast.Expr) and isinstance(s.value, ast.Constant))]
+    if len(body) < 2 or txt(body[0]) != 'x,x_type,x_is_scalar=_check_interp_inputx,f' or not isinstance(body[1], ast.If):
+        fail(fn, 'unexpected start of per_axis_interp')
+    node = body[1]
+    t = node.test
+    if not (isinstance(t, ast.Call) and isinstance(t.func, ast.Name) and t.func.id in ('all', 'any') and len(t.args) == 1
+            and isinstance(t.args[0], ast.GeneratorExp) and len(t.args[0].generators) == 1
+            and txt(t.args[0].generators[0].target) == 's' and txt(t.args[0].generators[0].iter) == 'interp'
+            and not t.args[0].generators[0].ifs):
+        fail(t, 'expected all/any(<test on s> for s in interp)')
+    e = t.args[0].elt
+    if not (isinstance(e, ast.Compare) and txt(e.left) == 's' and len(e.ops) == 1 and isinstance(e.ops[0], (ast.Eq, ast.NotEq))
+            and isinstance(e.comparators[0], ast.Constant) and e.comparators[0].value in ('nearest', 'linear')):
+        fail(e, "expected s ==/!= 'nearest'/'linear'")
+    if len(node.body) != 1 or len(node.orelse) != 1:
+        fail(node, 'expected one constructor call per branch')
+    then_c, else_c = ctor_call(node.body[0], cls), ctor_call(node.orelse[0], cls)
+    quant = 'forallb' if t.func.id == 'all' else 'existsb'
+    which = {'nearest': 'SNearest', 'linear': 'SLinear'}[e.comparators[0].value]
+    eq = isinstance(e.ops[0], ast.Eq)
+    test = '%s (fun s => match s with %s => %s | _ => %s end) ss' % (quant, which, 'true' if eq else 'false',
+                                                                   'false' if eq else 'true')
+    out['per_axis'] = (test, then_c, else_c)
+    return out
+
+
+def linear_schemes(top):
+    """_LinearInterpolator.__init__: interp=['linear'] * len(coord_vecs)"""
+    if '_LinearInterpolator' not in top:
+        fail(None, 'class _LinearInterpolator not found')
+    init = [n for n in top['_LinearInterpolator'].body if isinstance(n, ast.FunctionDef) and n.name == '__init__']
+    if len(init) != 1:
+        fail(top['_LinearInterpolator'], 'no __init__')
+    body = [s for s in init[0].body if not (isinstance(s, ast.Expr) and isinstance(s.value, ast.Constant))]
+    if len(body) != 1 or txt(body[0]) != "super_LinearInterpolator,self.__init__coord_vecs,values,input_type,interp=['linear']*lencoord_vecs":
+        fail(init[0], 'unexpected _LinearInterpolator.__init__')
+    if [b.id for b in top['_LinearInterpolator'].bases if isinstance(b, ast.Name)] != ['_PerAxisInterpolator']:
+        fail(top['_LinearInterpolator'], 'unexpected base class')
+    return 'SLinear'
+
+
+def out_checks(fn):
+    """_Interpolator.__call__:  if out is not None: (if COND: raise Err)*  -> ordered decision list"""
+    blocks = [s for s in fn.body if isinstance(s, ast.If) and txt(s.test) == 'outisnotNone']
+    if len(blocks) != 1:
+        fail(fn, 'expected one `if out is not None` block')
+    conds = {'notisinstanceout,np.ndarray': 'negb is_array', 'out.shape!=out_shape': 'negb shape_ok',
+             'out.dtype!=self.values.dtype': 'negb dtype_ok'}
+    errs = {'TypeError': 'ETypeErr', 'ValueError': 'EValueErr'}
+    lines = []
+    for s in blocks[0].body:
+        if not (isinstance(s, ast.If) and not s.orelse and len(s.body) == 1 and isinstance(s.body[0], ast.Raise)
+                and isinstance(s.body[0].exc, ast.Call) and isinstance(s.body[0].exc.func, ast.Name)):
+            fail(s, 'expected `if COND: raise Err(...)`')
+        c, e = txt(s.test), s.body[0].exc.func.id
+        if c not in conds or e not in errs:
+            fail(s, 'condition or error class outside grammar')
+        lines.append('  if %s then Some %s else' % (conds[c], errs[e]))
+    return ('Definition gen_out_check (is_array shape_ok dtype_ok : bool) : option errkind :=\n%s\n  None.\n'
+            % '\n'.join(lines))
+
+
 def translate():
     path = os.path.join(REPO, SRC)
     tree = ast.parse(open(path).read())
@@ -339,4 +441,19 @@ def translate():
                '  match s with SNearest => %s | SLinear => %s end.\n' % (names[table['nearest']], names[table['linear']]))
     out.append(find_indices(method('_Interpolator', '_find_indices')))
     out.append(nearest_pick(method('_NearestInterpolator', '_evaluate')))
+    # which evaluator serves which factory
+    fac = factories(top)
+    if fac['nearest_interpolator'] != '_NearestInterpolator' or fac['linear_interpolator'] != '_LinearInterpolator':
+        fail(None, 'nearest_/linear_interpolator instantiate an unexpected class')
+    test, then_c, else_c = fac['per_axis']
+    kinds = {'_NearestInterpolator': 'true', '_PerAxisInterpolator': 'false'}
+    if then_c not in kinds or else_c not in kinds:
+        fail(None, 'per_axis_interpolator instantiates an unexpected class')
+    out.append('(* per_axis_interpolator: true = served by the index-based _NearestInterpolator,\n'
+               '   false = by the arithmetic _PerAxisInterpolator *)\n'
+               'Definition gen_peraxis_index_based (ss : list scheme) : bool :=\n  if %s then %s else %s.\n'
+               % (test, kinds[then_c], kinds[else_c]))
+    out.append('(* linear_interpolator = per-axis evaluation with this scheme on every axis *)\n'
+               'Definition gen_linear_scheme : scheme := %s.\n' % linear_schemes(top))
+    out.append(out_checks(method('_Interpolator', '__call__')))
     return '\n'.join(out)
